@@ -13,3 +13,8 @@ WRAP uint64_t w_cm_upper(const CM* s, uint64_t item) { return s->get_upper_bound
 WRAP uint64_t w_cm_total(const CM* s) { return s->get_total_weight(); }
 WRAP uint64_t w_cm_cell(const CM* s, uint32_t i) { return s->_sketch_array[i]; }
 WRAP uint8_t w_cm_is_empty(const CM* s) { return s->is_empty(); }
+// the signed-item overloads (same bytes as the unsigned ones)
+WRAP int w_cm_update_i64(CM* s, int64_t item, uint64_t w) { try { s->update(item, w); return 0; } catch (...) { return 1; } }
+WRAP uint64_t w_cm_estimate_i64(const CM* s, int64_t item) { return s->get_estimate(item); }
+WRAP uint64_t w_cm_lower_i64(const CM* s, int64_t item) { return s->get_lower_bound(item); }
+WRAP uint64_t w_cm_upper_i64(const CM* s, int64_t item) { return s->get_upper_bound(item); }
